@@ -106,6 +106,23 @@ def _consts_of(zs):
     return list(out.values())
 
 
+def _skolemize(b, mark, formulas):
+    """Constants created (after `mark`) while evaluating something for the arbitrary position/key b are values that
+    depend on b: replace each such constant c by F_c(b).  Returns the rewritten formulas."""
+    subst = []
+    for c in _consts_of(formulas):
+        nm = c.decl().name()
+        if "!" in nm and nm.rsplit("!", 1)[1].isdigit() and int(nm.rsplit("!", 1)[1]) > mark and not c.eq(b):
+            subst.append((c, z3.Function(nm + "_at", b.sort(), c.sort())(b)))
+    if not subst:
+        return list(formulas)
+    return [z3.substitute(x, *subst) for x in formulas]
+
+
+def _mark():
+    return int(str(fresh("mark", z3.BoolSort())).split("!")[-1])
+
+
 class Executor:
     MAX_PATHS = 4000
 
@@ -281,10 +298,14 @@ class Executor:
             if isinstance(t, Obj) and isinstance(v.t, Obj) and t.cls in self.reg.mro(v.t.cls):
                 return Val(t, v.z)        # upcast: same reference
             raise Untranslatable(f"cannot coerce {v.t} to {t}")
+        if isinstance(v, View) and isinstance(t, List) and not isinstance(t, Deque):
+            return self.list_from_view(v, st, t)
         if isinstance(v, tuple) and v and v[0] in ("listlit", "listcomp"):
             inner = v[1]
             if isinstance(inner, View) and isinstance(t, Seq):
                 return self.materialise(inner, st, t.elt)
+            if isinstance(inner, View) and isinstance(t, List) and not isinstance(t, Deque):
+                return self.list_from_view(inner, st, t)
             return self.coerce(inner, t, st)
         if isinstance(v, PyTuple):
             if isinstance(t, Seq):
@@ -430,6 +451,25 @@ class Executor:
     def set_dvals(self, st, v, a):
         k = ("val", v.t.name(), v.t.k, v.t.v)
         self.heap.set(st, k, z3.Store(self.heap.get(st, k), v.z, a))
+
+    def list_from_view(self, view, st, t):
+        """[elt for ...] as a NEW list: fresh reference, length of the source, elements given pointwise."""
+        new = self.alloc(st, t)
+        n = view.length
+        st.assume(n >= 0)
+        i = fresh("li", z3.IntSort())
+        s_in = st.copy()
+        s_in.assume(z3.And(0 <= i, i < n))
+        n_in = len(s_in.pc)
+        mk = _mark()
+        body = self.coerce(self.guess_tuple(self.vat(view, i, s_in), s_in), t.elt, s_in).z
+        extras = s_in.pc[n_in:]
+        *extras, body = _skolemize(i, mk, list(extras) + [body])
+        arr = fresh("larr", z3.ArraySort(z3.IntSort(), t.elt.sort()))
+        st.assume(z3.ForAll([i], z3.Implies(z3.And(0 <= i, i < n), z3.And(*extras, z3.Select(arr, i) == body))))
+        self.list_set_arr(st, new, arr)
+        self.list_set_len(st, new, n)
+        return new
 
     def unhashable(self, x):
         """A key that contains a list (list display, list comprehension, sorted(...) result) cannot be hashed."""
@@ -703,8 +743,10 @@ class Executor:
         i = fresh("i", z3.IntSort())
         s_in = st.copy()
         s_in.assume(z3.And(0 <= i, i < n))
+        mk = _mark()
         body = self.coerce(self.guess_tuple(self.vat(view, i, s_in), s_in), et, s_in).z
         extras = s_in.pc[len(st.pc) + 1:]
+        *extras, body = _skolemize(i, mk, list(extras) + [body])
         st.assume(z3.Length(r) == n)
         st.assume(z3.ForAll([i], z3.Implies(z3.And(0 <= i, i < n), z3.And(*extras, r[i] == body))))
         at = view.at
@@ -1663,7 +1705,8 @@ class Executor:
         def at(i):
             self.muted += 1
             try:
-                s2 = bind(i, st)
+                # facts about the element belong to the state of whoever reads it
+                s2 = bind(i, self.view_st if self.view_st is not None else st)
                 v, s3 = self.ev1(e.elt, s2)
             finally:
                 self.muted -= 1
